@@ -129,6 +129,9 @@ class _AnyPropensity:
     def get_propensity(self, state, params, t):
         return self.c.fresh_real("rawd%d" % self.j)
 
+    def get_volume_propensity(self, state, params, V, t):
+        return self.c.fresh_real("rawdv%d" % self.j)
+
 
 def safe_job(interp, c, case):
     S_, R_, lo, hi = case
